@@ -69,6 +69,7 @@ type scaleEnv struct {
 	valForm map[*types.Var]lin // value of exponent-typed (uint32/int) variables
 	scale   map[*types.Var]lin // decimal scale of quantity variables (int64/float64)
 	nOb     int
+	ff      *core.FuncFlow
 }
 
 // resultExp is the documented result precision of the Amount operations:
@@ -342,6 +343,25 @@ func (e *scaleEnv) stmts(list []ast.Stmt) {
 			}
 		case *ast.BlockStmt:
 			e.stmts(st.List)
+		case *ast.SwitchStmt:
+			if st.Init != nil {
+				e.stmts([]ast.Stmt{st.Init})
+			}
+			for _, cc := range st.Body.List {
+				cl := cc.(*ast.CaseClause)
+				if st.Tag == nil {
+					for _, cnd := range cl.List {
+						e.compare(cnd)
+					}
+				}
+				save := e.snapshot()
+				e.stmts(cl.Body)
+				e.restore(save)
+			}
+		case *ast.ForStmt:
+			e.stmts(st.Body.List)
+		case *ast.RangeStmt:
+			e.stmts(st.Body.List)
 		}
 	}
 }
@@ -450,6 +470,47 @@ func (e *scaleEnv) checkResultLoose(pos token.Pos, ef lin) {
 	}
 	// `return a` after `if a.exp > exp {…return}` and `if a.exp < exp {…return}`: a.exp == exp
 	gt, lt := false, false
+	// the same from the branch facts known at the return (any arrangement of ifs / cases)
+	if e.ff == nil {
+		e.ff = core.NewFuncFlow(e.fd)
+	}
+	var ret ast.Node
+	ast.Inspect(e.fd.Decl.Body, func(n ast.Node) bool {
+		if r, ok := n.(*ast.ReturnStmt); ok && r.Pos() <= pos && pos <= r.End() {
+			ret = r
+		}
+		return true
+	})
+	if ret != nil {
+		for leaf, val := range e.ff.Flow.CondsAt(ret) {
+			be, ok := ast.Unparen(leaf).(*ast.BinaryExpr)
+			if !ok {
+				continue
+			}
+			a, ok1 := e.expValue(be.X)
+			b, ok2 := e.expValue(be.Y)
+			if !ok1 || !ok2 || !((a.eq(ef) && b.eq(want)) || (a.eq(want) && b.eq(ef))) {
+				continue
+			}
+			efLeft := a.eq(ef)
+			switch {
+			case be.Op == token.EQL && val, be.Op == token.NEQ && !val:
+				gt, lt = true, true
+			case be.Op == token.GTR && !val, be.Op == token.LEQ && val:
+				if efLeft {
+					gt = true // ef > want excluded
+				} else {
+					lt = true
+				}
+			case be.Op == token.LSS && !val, be.Op == token.GEQ && val:
+				if efLeft {
+					lt = true
+				} else {
+					gt = true
+				}
+			}
+		}
+	}
 	for _, s := range e.fd.Decl.Body.List {
 		is, ok := s.(*ast.IfStmt)
 		if !ok || len(is.Body.List) == 0 {
@@ -511,6 +572,15 @@ func commonExpPair(p *core.Program, fn *types.Func) bool {
 
 // C05 — decimal amount arithmetic.
 func C05(c *core.Ctx) {
+	// the operations of package num are the units of this analysis: each is judged
+	// on its own body, they are not dissolved into one another
+	if pk := c.P.Pkg("num"); pk != nil {
+		for _, fd := range c.P.RawFuncs(pk) {
+			if fd.Obj.Exported() {
+				c.P.Anchor(fd.Obj)
+			}
+		}
+	}
 	p := c.P
 	c.Explain("Decided for package num: (R1) the only way a floating-point intermediate becomes an integer value is int64(math.Round(x)) — math.Round is round-half-away-from-zero and sign-symmetric; no Floor/Ceil/Trunc/RoundToEven and no other float→int conversion exists; (R2) exponent-dimension consistency of every amount operation: each quantity expression is given a symbolic decimal scale (a linear form over the exponents in scope; value fields carry their amount's exponent, intPow(10,e) carries e, products add, quotients subtract); sums, differences and comparisons need equal scales, every Amount literal must be labelled with the scale of its value, and each operation's result carries its documented precision (receiver's, or the requested one for Rescale); (R3) Split's remainder is the original minus (parts−1) times the quotient; (R4) the threshold rules' comparison table, folded over cmp ∈ {−1,0,1}, equals the relation named by the error each constructor attaches (≥, ≤, >, <, ≠), and Compare returns −1/0/1 for </==/>. Not decided: exactness of float64 products/quotients within 2^52 (a numerical argument), overflow.")
 	c.Rule("C05-R1", "float→integer only through int64(math.Round(x))", 4)
